@@ -75,6 +75,13 @@ class Sched:
             self.change_points = {self.rng.randrange(1, horizon)
                                   for _ in range(max(depth - 1, 0))}
         self.tick_prio = self.rng.random()
+        # bounded starvation: a schedulable thread passed over this many
+        # times in a row is run next (the clock thread never ends by itself,
+        # plain PCT would let it starve the script for ever)
+        self.fairness = self.rng.choice([8, 20, 50, 120])
+        self.passed = {}
+        self.quantum = self.rng.choice([3, 10, 30])
+        self.forced = None        # [thread, remaining picks]
         self.locations = {}       # yield location -> count (coverage)
         self.replay = None        # list of choices to replay
 
@@ -109,8 +116,16 @@ class Sched:
         return out
 
     def _pick(self, options):
+        starved = [o for o in options if o != 'TICK'
+                   and self.passed.get(o, 0) >= self.fairness]
         if self.replay is not None and len(self.choices) < len(self.replay):
             i = self.replay[len(self.choices)] % len(options)
+        elif self.forced and self.forced[0] in options and self.forced[1] > 0:
+            self.forced[1] -= 1
+            i = options.index(self.forced[0])
+        elif starved:
+            i = options.index(starved[0])
+            self.forced = [starved[0], self.quantum]
         elif self.policy == 'pct':
             def prio(o):
                 return self.tick_prio if o == 'TICK' else o.prio
@@ -119,6 +134,10 @@ class Sched:
         else:
             i = self.rng.randrange(len(options))
         self.choices.append(i)
+        for o in options:
+            if o != 'TICK':
+                self.passed[o] = 0 if o is options[i] else \
+                    self.passed.get(o, 0) + 1
         return options[i]
 
     def switch(self, loc=''):
